@@ -55,6 +55,29 @@ def call(I, name, args, e):
         if m.group(2) == 'new': return args[0]
         args[0].place.set(args[1]); return UNIT
 
+    # ---------------- the `?` operator: Try::branch / FromResidual::from_residual on Result and Option
+    if n in ('<core::result::Result<T, E> as core::ops::Try>::branch', '<core::option::Option<T> as core::ops::Try>::branch') and isinstance(a0, EnumV):
+        is_res = 'Result' in n; okv = 'Ok' if is_res else 'Some'
+        def residual():
+            if not is_res: return opt_none()
+            return EnumV('core::result::Result', 'Err', {'0': a0.fields['0'] if a0.variant == 'Err' and '0' in a0.fields else I.enum_payload(a0, 'Err', '0')})
+        if a0.variant == okv: return EnumV('core::ops::ControlFlow', 'Continue', {'0': a0.fields['0']}, ty=ty)
+        if a0.variant is not None: return EnumV('core::ops::ControlFlow', 'Break', {'0': residual()}, ty=ty)
+        ev = EnumV('core::ops::ControlFlow', None, sym=('a', I.fresh_name('try')), ty=ty)
+        ev.some_cond = getattr(a0, 'some_cond', None) or ('isvar', a0.sym, okv)
+        ev.payload_cache[('Continue', '0')] = I.enum_payload(a0, okv, '0')
+        n_t = len(I.tops)
+        ev.payload_cache[('Break', '0')] = residual()
+        if is_res and len(I.tops) != n_t:
+            # the error value of a symbolic Result is not modelled: an opaque payload (it only travels to the caller)
+            del I.tops[n_t:]
+            ev.payload_cache[('Break', '0')] = EnumV('core::result::Result', 'Err', {'0': ('a', I.fresh_name('err'))})
+        return ev
+    if n.endswith('>::from_residual') and 'core::ops::FromResidual' in n and isinstance(a0, EnumV):
+        if a0.path == 'core::option::Option': return opt_none(ty)
+        if a0.path == 'core::result::Result':
+            ev_ = a0.fields.get('0') if a0.variant == 'Err' else None
+            return EnumV('core::result::Result', 'Err', {'0': ev_ if ev_ is not None else ('a', I.fresh_name('err'))}, ty=ty)
     # ---------------- calling a closure / function value through the Fn traits: f(args)
     if n in ('core::ops::FnOnce::call_once', 'core::ops::FnMut::call_mut', 'core::ops::Fn::call') and len(args) == 2:
         fv = args[0]
